@@ -8,7 +8,9 @@ use crate::refmodel::{self, RunFail};
 use crate::report::{self, Report, Violation};
 use serde_json::json;
 
-const IDENTS: [(&str, bool); 12] = [
+const IDENTS: [(&str, bool); 14] = [
+    ("user_id", false),
+    ("api_url", false),
     ("name", false),
     ("user_name", false),
     ("a_b_c", false),
@@ -120,7 +122,10 @@ pub fn program(c: &Case) -> File {
 
 fn cfg_of(c: &Case) -> Cfg {
     if c.prefixed {
-        Cfg::prefixed()
+        // the second configuration turns every naming knob on: type prefix, other package, Go acronyms
+        let mut cfg = Cfg::prefixed();
+        cfg.go_uppercase_acronyms = vec!["ID".into(), "URL".into()];
+        cfg
     } else {
         Cfg::plain()
     }
@@ -281,7 +286,7 @@ pub fn run(args: &[String]) -> i32 {
         accs,
         &stats,
         json!({"containers": ["struct", "struct variant of a tagged enum"], "fields_per_container": max_fields, "idents": IDENTS.len(), "renames": RENAMES.len(),
-               "rename_all": RULES.len(), "placements": ["own container", "enclosing enum only", "both"], "attr_styles": 4, "extra_serde_attributes": [false, true], "languages": 6, "configs": 2}),
+               "rename_all": RULES.len(), "placements": ["own container", "enclosing enum only", "both"], "attr_styles": 4, "extra_serde_attributes": [false, true], "languages": 6, "configs": ["defaults", "prefix + other package + Go uppercase_acronyms [ID, URL]"]}),
     );
     require_nonvacuous(&mut rep);
     rep.cov("rule", json!("full product of identifier × serde(rename) × rename_all rule × placement × attribute spelling × language × prefix/package configuration; every case rendered to Rust, run through parse→reconcile→generate, parsed back with the language extractor and compared with serde's key (vendored case.rs + precedence rename > rename_all > ident). non-trivial = expected key differs from the Rust identifier or from the target identifier. states = distinct rendered Rust inputs."));
